@@ -21,15 +21,22 @@ Proof.
   - unfold collect_for in Hg. apply collect_ok in Hg. exact Hg.
 Qed.
 
-Lemma collect_keys_first_occurrence sch frags vs cfuel tname sels g :
-  spread_free sels = true ->
-  collect_for sch frags vs cfuel tname sels = Ok g ->
-  exists fs, SFlat (applies sch tname) frags vs sels [] fs [] /\
-             g = spec_groups fs /\ keys g = first_occ (map field_key fs).
+Lemma spread_free_top frags ss : spread_free ss = true -> top_spreads frags ss = true.
 Proof.
-  intros Hsf Hg. unfold collect_for, collect in Hg. apply obind_ok in Hg as [r [Hr Hg]]. inversion Hg; subst.
-  destruct (collect_into_spread_free _ _ _ _ _ _ _ _ _ Hsf Hr) as [fs [Hfl [Hgi _]]].
-  exists fs. split; [apply Hfl|]. rewrite Hgi, group_into_spec. split; [reflexivity|apply spec_groups_keys].
+  unfold spread_free, top_spreads. induction ss as [|x ss IH]; simpl; [reflexivity|].
+  rewrite andb_true_iff. intros [Hx Hs]. rewrite (IH Hs), andb_true_r.
+  destruct x; simpl in *; try reflexivity; try discriminate. exact Hx.
+Qed.
+
+Lemma collect_keys_first_occurrence sch frags vs cfuel tname sels g :
+  top_spreads frags sels = true ->
+  collect_for sch frags vs cfuel tname sels = Ok g ->
+  exists fs V', SFlat (applies sch tname) frags vs sels [] fs V' /\
+                g = spec_groups fs /\ keys g = first_occ (map field_key fs).
+Proof.
+  intros Hts Hg. unfold collect_for in Hg.
+  destruct (collect_is_spec_collect_top _ _ _ _ _ _ _ Hts Hg) as [fs [V' [Hfl ->]]].
+  exists fs, V'. split; [exact Hfl|]. split; [reflexivity|apply spec_groups_keys].
 Qed.
 
 (* errors <-> nulls *)
